@@ -10,6 +10,7 @@ import (
 	"sort"
 	"strings"
 
+	"golang.org/x/tools/go/packages"
 	"golang.org/x/tools/go/ssa"
 
 	"mtverif/internal/core"
@@ -344,6 +345,9 @@ var ruleTokenGate = &core.Rule{ID: "R09.4", Min: 5,
 				wantMask = tObj | tArr
 			}
 			qs, known := queries[q]
+			if _, total := c.Memo["jsonQuerySel"]; total && !known {
+				known = true // the selection function yields no query for every other name
+			}
 			s.Check(mask == wantMask, key+": token mask", c.Pos(call.Pos()), fmt.Sprintf("mask %d", mask), fmt.Sprintf("token mask %d, expected %d (%s)", mask, wantMask, map[bool]string{true: "object or array", false: "object only"}[n == js]))
 			if n == js {
 				s.Check(known && len(qs) == 0, key+": no query", c.Pos(call.Pos()), "empty query "+q, "plain application/json is decided with a non-empty query")
@@ -802,83 +806,198 @@ func jsonQueries(c *core.Ctx) map[string][]jsonQuery {
 					if kval == nil {
 						core.Bail("query table key is not a constant")
 					}
-					key := constant.StringVal(kval)
-					var qs []jsonQuery
-					if qcl, ok := ast.Unparen(kv.Value).(*ast.CompositeLit); ok {
-						for _, qe := range qcl.Elts {
-							qlit, ok := qe.(*ast.CompositeLit)
-							if !ok {
-								core.Bail("query table entry is not a literal")
-							}
-							var q jsonQuery
-							st := p.TypesInfo.TypeOf(qlit).Underlying().(*types.Struct)
-							for fi, fe := range qlit.Elts {
-								fname := st.Field(fi).Name()
-								val := fe
-								if kv2, ok := fe.(*ast.KeyValueExpr); ok {
-									fname = kv2.Key.(*ast.Ident).Name
-									val = kv2.Value
-								}
-								var items [][]byte
-								if ce, isCall := ast.Unparen(val).(*ast.CallExpr); isCall {
-									// strings-to-byte-slices conversion helper applied to constant strings
-									id, isId := ce.Fun.(*ast.Ident)
-									var h *ssa.Function
-									if isId {
-										if fo, ok := p.TypesInfo.Uses[id].(*types.Func); ok {
-											h = c.Prog.FuncValue(fo)
-										}
-									}
-									if h == nil || !isStringsToBytes(h) || ce.Ellipsis.IsValid() {
-										core.Bail("query field is not a literal")
-									}
-									for _, a := range ce.Args {
-										tv := p.TypesInfo.Types[a]
-										if tv.Value == nil || tv.Value.Kind() != constant.String {
-											core.Bail("query item is not a constant byte string")
-										}
-										items = append(items, []byte(constant.StringVal(tv.Value)))
-									}
-								} else {
-									lst, ok := ast.Unparen(val).(*ast.CompositeLit)
-									if !ok {
-										core.Bail("query field is not a literal")
-									}
-									for _, it := range lst.Elts {
-										bs, ok := constBytesExpr(p.TypesInfo, it)
-										if !ok {
-											core.Bail("query item is not a constant byte string")
-										}
-										items = append(items, bs)
-									}
-								}
-								// first [][]byte field = path, second = values
-								idx := 0
-								for k := 0; k < st.NumFields(); k++ {
-									if st.Field(k).Name() == fname {
-										idx = k
-									}
-								}
-								if idx == 0 {
-									q.path = items
-								} else {
-									q.vals = items
-								}
-							}
-							qs = append(qs, q)
-						}
-					}
-					out[key] = qs
+					out[constant.StringVal(kval)] = parseQueryList(c, p, kv.Value)
 				}
 			}
 			return true
 		})
 	}
 	if !found {
+		found = queriesBySelection(c, p, out)
+	}
+	if !found {
 		core.Bail("query table (map from query name to []query) not found in the scanner package")
 	}
 	c.Memo["jsonqueries"] = out
 	return out
+}
+
+// queriesBySelection reads the function form of the query table: a function of
+// the scanner package from the query name to []query whose returns are package
+// variables assigned once (their literals are folded) or nil, each under the
+// test of the name against a constant on every path. The name that selects
+// nothing (QueryNone, unknown names) maps to no query.
+func queriesBySelection(c *core.Ctx, p *packages.Package, out map[string][]jsonQuery) bool {
+	sp := c.SSA[core.PkgJSON]
+	var sel *ssa.Function
+	for _, mem := range sp.Members {
+		f, ok := mem.(*ssa.Function)
+		if !ok || f.Blocks == nil || len(f.Params) != 1 || !core.IsString(f.Params[0].Type()) || f.Signature.Results().Len() != 1 {
+			continue
+		}
+		sl, ok := f.Signature.Results().At(0).Type().Underlying().(*types.Slice)
+		if !ok {
+			continue
+		}
+		if _, ok := sl.Elem().Underlying().(*types.Struct); !ok {
+			continue
+		}
+		if sel != nil {
+			core.Bail("two query selection functions: %s, %s", sel.Name(), f.Name())
+		}
+		sel = f
+	}
+	if sel == nil {
+		return false
+	}
+	var keys []string
+	for _, b := range sel.Blocks {
+		for _, in := range b.Instrs {
+			if bo, ok := in.(*ssa.BinOp); ok && bo.Op == token.EQL {
+				for _, pr := range [][2]ssa.Value{{bo.X, bo.Y}, {bo.Y, bo.X}} {
+					if pr[0] == ssa.Value(sel.Params[0]) {
+						if k, ok := core.ConstString(pr[1]); ok {
+							keys = append(keys, k)
+						}
+					}
+				}
+			}
+		}
+	}
+	eval := func(key string) (*ssa.Global, bool) {
+		ev := newEval(c)
+		ev.Env = fde.Env{sel.Params[0]: constant.MakeString(key)}
+		exits, err := ev.Walk(sel.Blocks[0], nil, nil, 0)
+		if err != nil || len(exits) != 1 || exits[0].Ret == nil {
+			return nil, false
+		}
+		r := exits[0].Ret.Results[0]
+		if core.IsNilConst(r) {
+			return nil, true
+		}
+		g, ok := core.LoadOfGlobal(r)
+		return g, ok
+	}
+	for _, k := range keys {
+		g, ok := eval(k)
+		if !ok {
+			core.Bail("query selection %s does not fold for %q", sel.Name(), k)
+		}
+		if g == nil {
+			out[k] = nil
+			continue
+		}
+		if tree.GlobalInit(g) == nil {
+			core.Bail("query list %s is assigned more than once", g.Name())
+		}
+		var init ast.Expr
+		for _, f := range p.Syntax {
+			for _, d := range f.Decls {
+				gd, ok := d.(*ast.GenDecl)
+				if !ok {
+					continue
+				}
+				for _, spc := range gd.Specs {
+					vs, ok := spc.(*ast.ValueSpec)
+					if !ok || len(vs.Values) != len(vs.Names) {
+						continue
+					}
+					for i, nm := range vs.Names {
+						if p.TypesInfo.Defs[nm] == g.Object() {
+							init = vs.Values[i]
+						}
+					}
+				}
+			}
+		}
+		if init == nil {
+			core.Bail("initialiser of query list %s not found", g.Name())
+		}
+		out[k] = parseQueryList(c, p, init)
+	}
+	if g, ok := eval("\x00no such query"); !ok || g != nil {
+		core.Bail("query selection %s yields queries for an unknown name", sel.Name())
+	}
+	// the empty query name used by plain JSON
+	if _, has := out[""]; !has {
+		if g, ok := eval(""); ok && g == nil {
+			out[""] = nil
+		}
+	}
+	c.Memo["jsonQuerySel"] = sel
+	return len(keys) > 0
+}
+
+// parseQueryList folds a []query composite literal.
+func parseQueryList(c *core.Ctx, p *packages.Package, e ast.Expr) []jsonQuery {
+	var qs []jsonQuery
+	qcl, ok := ast.Unparen(e).(*ast.CompositeLit)
+	if !ok {
+		return nil // nil: no query
+	}
+	for _, qe := range qcl.Elts {
+		qlit, ok := qe.(*ast.CompositeLit)
+		if !ok {
+			core.Bail("query table entry is not a literal")
+		}
+		var q jsonQuery
+		st := p.TypesInfo.TypeOf(qlit).Underlying().(*types.Struct)
+		for fi, fe := range qlit.Elts {
+			fname := st.Field(fi).Name()
+			val := fe
+			if kv2, ok := fe.(*ast.KeyValueExpr); ok {
+				fname = kv2.Key.(*ast.Ident).Name
+				val = kv2.Value
+			}
+			var items [][]byte
+			if ce, isCall := ast.Unparen(val).(*ast.CallExpr); isCall {
+				// strings-to-byte-slices conversion helper applied to constant strings
+				id, isId := ce.Fun.(*ast.Ident)
+				var h *ssa.Function
+				if isId {
+					if fo, ok := p.TypesInfo.Uses[id].(*types.Func); ok {
+						h = c.Prog.FuncValue(fo)
+					}
+				}
+				if h == nil || !isStringsToBytes(h) || ce.Ellipsis.IsValid() {
+					core.Bail("query field is not a literal")
+				}
+				for _, a := range ce.Args {
+					tv := p.TypesInfo.Types[a]
+					if tv.Value == nil || tv.Value.Kind() != constant.String {
+						core.Bail("query item is not a constant byte string")
+					}
+					items = append(items, []byte(constant.StringVal(tv.Value)))
+				}
+			} else {
+				lst, ok := ast.Unparen(val).(*ast.CompositeLit)
+				if !ok {
+					core.Bail("query field is not a literal")
+				}
+				for _, it := range lst.Elts {
+					bs, ok := constBytesExpr(p.TypesInfo, it)
+					if !ok {
+						core.Bail("query item is not a constant byte string")
+					}
+					items = append(items, bs)
+				}
+			}
+			// first [][]byte field = path, second = values
+			idx := 0
+			for k := 0; k < st.NumFields(); k++ {
+				if st.Field(k).Name() == fname {
+					idx = k
+				}
+			}
+			if idx == 0 {
+				q.path = items
+			} else {
+				q.vals = items
+			}
+		}
+		qs = append(qs, q)
+	}
+	return qs
 }
 
 var ruleQueryTables = &core.Rule{ID: "R10.2", Min: 3,
